@@ -779,6 +779,8 @@ def directed_cases(tier):
 
 
 def shrink_candidates(case):
+    if case.get("live"):
+        return
     ops = case["ops"]
     for i in range(len(ops) - 1, -1, -1):
         if len(ops) > 1:
